@@ -143,12 +143,40 @@ fn usage() -> ! {
     std::process::exit(2)
 }
 
+/// A logger that is enabled at every level and formats every record (into nothing): with no logger installed the `log`
+/// macros never evaluate their arguments, and a library user with env_logger at debug level runs different code than
+/// one without. ASEVER_NO_LOGGER=1 switches it off.
+struct FormatAll;
+impl log::Log for FormatAll {
+    fn enabled(&self, _: &log::Metadata) -> bool {
+        true
+    }
+    fn log(&self, record: &log::Record) {
+        use std::fmt::Write as _;
+        struct Sink(usize);
+        impl std::fmt::Write for Sink {
+            fn write_str(&mut self, s: &str) -> std::fmt::Result {
+                self.0 += s.len();
+                Ok(())
+            }
+        }
+        let mut k = Sink(0);
+        let _ = write!(k, "{}", record.args());
+    }
+    fn flush(&self) {}
+}
+static LOGGER: FormatAll = FormatAll;
+
 fn main() {
     let args: Vec<String> = std::env::args().collect();
     if args.len() < 2 {
         usage();
     }
     install_panic_hook();
+    if std::env::var_os("ASEVER_NO_LOGGER").is_none() {
+        let _ = log::set_logger(&LOGGER);
+        log::set_max_level(log::LevelFilter::Trace);
+    }
     if let Ok(c) = std::env::var("ASEVER_ALLOC_CAP") {
         if let Ok(v) = c.parse::<usize>() {
             CAP.store(v, Ordering::Relaxed);
